@@ -544,7 +544,11 @@ class X12LoopDataNode(X12DataNode):
         ret.end_loops = list(self.end_loops)
         ret.parent = self.parent
         for child in self.children:
-            ret.children.append(child.copy())
+            if child.type is None:
+                continue  # deleted node
+            new_child = child.copy()
+            new_child.parent = ret
+            ret.children.append(new_child)
         return ret
 
     @property
